@@ -30,9 +30,10 @@ def parseFp (s : String) : Option Fp :=
 
 def parseSection (s : String) : Option Section :=
   match s.splitOn "," with
-  | [k, mid, dir, fmts, rtpmaps, extmaps, a4, aa] => do
+  | [k, mid, dir, fmts, rtpmaps, extmaps, a4, aa, su] => do
+    let setup ← if su = "~" then some none else (strOfHex su).map some
     some { kind := ← parseKind k, mid := ← strOfHex mid, dir := ← parseDir dir, formats := ← listOfHex fmts,
-           rtpmaps := ← listOfHex rtpmaps, extmaps := ← listOfHex extmaps, addr4 := a4 = "1", addrAny := aa = "1" }
+           rtpmaps := ← listOfHex rtpmaps, extmaps := ← listOfHex extmaps, addr4 := a4 = "1", addrAny := aa = "1", setup }
   | _ => none
 
 /-- `ty|id|eq|fp|groups|sec;sec…` or a back reference `@id` to a description already seen on this line -/
@@ -57,6 +58,7 @@ def parseCall (seen : List Desc) (t : String) : Option Call :=
   | ["cl"] => some .close
   | ["ds"] => some .dtlsStarted
   | ["at", k, d] => do some (.addTransceiver (← parseKind k) (← parseDir d))
+  | ["tk", k] => do some (.addTransceiver (← parseKind k) .sendrecv)   -- `add_track`: a new SendRecv transceiver
   | "sl" :: rest => do some (.setLocal (← parseDesc seen (",".intercalate rest)))
   | "sr" :: rest => do some (.setRemote (← parseDesc seen (",".intercalate rest)))
   | _ => none
@@ -90,7 +92,8 @@ def showPc (r : Res) (pc : Pc) : String :=
   let rm := match pc.rem with | none => "-" | some d => toString d.id
   let fp := match pc.remoteFp with | none => "-" | some v => toString v
   let ts := ";".intercalate (pc.trxs.map showTrx)
-  s!"{showRes r}|{showSig pc.sig}|{l}|{rm}|{pc.nextMid}|{b01 pc.dtlsStarted}:{fp}|{ts}"
+  let role := match pc.dtlsRole with | none => "-" | some true => "c" | some false => "s"
+  s!"{showRes r}|{showSig pc.sig}|{l}|{rm}|{pc.nextMid}|{b01 pc.dtlsStarted}:{fp}:{role}|{ts}"
 
 def parseTrxs (s : String) : Option (List (Kind × Dir)) :=
   if s = "_" then some [] else
